@@ -524,7 +524,10 @@ fn depth_lengths(k: K, q: bool) -> Vec<usize> {
 
 fn depth_pool(k: K) -> Vec<Vo> {
     let w = k.word();
-    pool_small(&[(K::F8x1, 0), (K::F8x1, 1), (K::F8x1, 3), (K::F8x2, 9), (k, w), (K::F128x2, w + 1), (K::D, 65), (K::A, 130), (K::F64x4, 200), (K::D, 257)])
+    // operands of every word size: their bits are read through get_int::<u8>/<u64> by append/prepend,
+    // so a length that ends in the lower half of a wide word, in the middle of a word, at a boundary
+    pool_small(&[(K::F8x1, 0), (K::F8x1, 1), (K::F8x1, 3), (K::F8x2, 9), (k, w), (K::F128x2, w + 1), (K::D, 65), (K::A, 130), (K::F64x4, 200), (K::D, 257),
+        (K::F128x1, 10), (K::F128x2, 129 + 40), (K::F32x2, 33), (K::F16x2, 17), (K::FUx1, 7)])
 }
 
 pub fn run_c03(cfg: &Cfg) -> (Part, Value, bool) {
@@ -623,7 +626,7 @@ pub fn run_c07(cfg: &Cfg) -> (Part, Value, bool) {
     // closure F8x1 / F8x2 under the edit alphabet
     for (k, b, idx) in [(K::F8x1, if q { 4 } else { 8 }, Idx::All), (K::F8x2, if q { 2 } else { 4 }, if q { Idx::Boundary } else { Idx::All })] {
         let mut pool = pool_full(&[K::F8x1, K::F8x2, K::D, K::A], b);
-        pool.extend(pool_small(&[(K::F8x3, 8), (K::F16x1, 9), (K::F64x2, 16), (K::D, 9), (K::A, 8), (K::D, 16)]));
+        pool.extend(pool_small(&[(K::F8x3, 8), (K::F16x1, 9), (K::F64x2, 16), (K::D, 9), (K::A, 8), (K::D, 16), (K::F128x1, 10), (K::F128x1, 3), (K::F32x1, 5), (K::FUx1, 2)]));
         let npool = pool.len();
         let roots = roots_of(&mut part, &seen, k, &Bits::new(), PROVS_ALL);
         let spec = spec_edits(pool, k.cap().unwrap(), idx, if q { 2 } else { 3 });
@@ -729,7 +732,7 @@ pub fn run_c18(cfg: &Cfg) -> (Part, Value, bool) {
         let lengths: Vec<usize> = if q { vec![0, 1, 64, 127, 128, 129] } else { vec![0, 1, 63, 64, 65, 127, 128, 129] };
         roots.extend(roots_small(&mut part, &seen, k, &lengths, dyn_provs(k)));
         let nroots = roots.len();
-        let pool = pool_small(&[(K::F8x1, 0), (K::F8x1, 1), (K::F8x1, 8), (K::F64x2, 64), (K::D, 65), (K::F64x2, 128), (K::F64x4, 256), (K::D, 257)]);
+        let pool = pool_small(&[(K::F8x1, 0), (K::F8x1, 1), (K::F8x1, 8), (K::F64x2, 64), (K::D, 65), (K::F64x2, 128), (K::F64x4, 256), (K::D, 257), (K::F128x1, 10), (K::F128x2, 150), (K::F32x2, 40)]);
         let mut spec = spec_edits(pool, 460, Idx::Narrow, 1);
         spec.inserts = false;
         spec.capacity = true;
